@@ -43,6 +43,20 @@ def mk_lines(kind: str, text: str, n: int) -> Tuple[Any, bool]:
         return {"jsonrpc": "2.0", "id": n, "method": "roots/list", "params": {"t": text}}, False
     if kind == "resp":
         return {"jsonrpc": "2.0", "id": f"r{n}", "result": {"content": [{"type": "text", "text": text}], "n": None}}, False
+    if kind == "resp_arr":
+        return {"jsonrpc": "2.0", "id": f"r{n}", "result": [text, None, 1]}, False
+    if kind == "resp_str":
+        return {"jsonrpc": "2.0", "id": n + 1, "result": text}, False
+    if kind == "resp_num":
+        return {"jsonrpc": "2.0", "id": f"r{n}", "result": n}, False
+    if kind == "resp_empty":
+        return {"jsonrpc": "2.0", "id": f"r{n}", "result": {}}, False
+    if kind == "err_data":
+        return {"jsonrpc": "2.0", "id": n + 1, "error": {"code": -32001, "message": text, "data": [text]}}, False
+    if kind == "req_noparams":
+        return {"jsonrpc": "2.0", "id": f"q{n}", "method": "ping"}, False
+    if kind == "note_noparams":
+        return {"jsonrpc": "2.0", "method": "notifications/initialized"}, False
     if kind == "err":
         return {"jsonrpc": "2.0", "id": f"e{n}", "error": {"code": -32000, "message": text}}, False
     if kind == "key":
@@ -58,6 +72,8 @@ def mk_lines(kind: str, text: str, n: int) -> Tuple[Any, bool]:
         "junk_null": b"null",
         "junk_obj": b'{"foo": 1}',
         "junk_noresult": b'{"jsonrpc":"2.0","id":5}',
+        "junk_nullid_result": b'{"jsonrpc":"2.0","id":null,"result":{}}',
+
         "junk_both": b'{"jsonrpc":"2.0","id":5,"result":{},"error":{"code":1,"message":"m"}}',
         "junk_badutf8": b'{"jsonrpc":"2.0","method":"notifications/\xff\xfe"}',
         "junk_badutf8_2": b"\xc3\x28 \xe2\x82",
@@ -69,9 +85,11 @@ def mk_lines(kind: str, text: str, n: int) -> Tuple[Any, bool]:
     return raws[kind], True
 
 
-MSG_KINDS = ["note", "req", "resp", "err", "key", "batch"]
+MSG_KINDS = ["note", "req", "resp", "err", "key", "batch", "resp_arr", "resp_str", "resp_num", "resp_empty", "err_data",
+             "req_noparams", "note_noparams"]
 JUNK_KINDS = ["junk_text", "junk_brace", "junk_scalar", "junk_string", "junk_null", "junk_obj", "junk_noresult",
-              "junk_both", "junk_badutf8", "junk_badutf8_2", "junk_empty", "junk_spaces", "lenient_v1", "junk_trunc_utf8"]
+              "junk_both", "junk_badutf8", "junk_badutf8_2", "junk_empty", "junk_spaces", "lenient_v1", "junk_trunc_utf8",
+              "junk_nullid_result"]
 
 
 def build_stream(spec: List[Tuple[str, str, str, bool]]) -> bytes:
@@ -132,6 +150,12 @@ def stream_specs(ctx) -> List[List[Tuple[str, str, str, bool]]]:
     # each junk kind between two good lines
     for j in JUNK_KINDS:
         specs.append([("req", "\u00e9", "LF", False), (j, "x\u20ac", "LF", False), ("note", "after", "CRLF", True)])
+    # the same top-level shape with different value types, after each other (an earlier line must not decide how a
+    # later one is read)
+    specs.append([("resp", "a", "LF", False), ("resp_arr", "\u00e9", "LF", False), ("resp_str", "s", "CRLF", False),
+                  ("junk_nullid_result", "", "LF", False), ("resp_num", "n", "LF", False), ("resp_empty", "", "LF", False)])
+    specs.append([("resp_num", "n", "LF", False), ("resp", "a", "LF", False), ("err_data", "e", "LF", False), ("err", "e2", "LF", False),
+                  ("req_noparams", "", "LF", False), ("req", "p", "LF", False), ("note_noparams", "", "LF", False), ("note", "x", "LF", False)])
     n = 12 if ctx.tier == "quick" else 150
     for _ in range(n):
         L = rng.randint(1, 6)
